@@ -197,6 +197,25 @@ def lpPredict2 (bisq : Bool) (h : ℚ) (d n : ℕ) (x1 x2 y : ℕ → ℚ) (Q : 
 def lpEstimate1W (w : ℕ → ℚ) (h : ℚ) (d n : ℕ) (x y : ℕ → ℚ) (x0 : ℚ) : Option ℚ :=
   lpEstimate n (d + 1) w (design1 h x x0) y
 
+/-! ### The default bandwidth rule `n^(-1/5)`: which `n` each entry point uses
+
+The rule-of-thumb bandwidth is `n^(-1/5)`; its rational skeleton is the count `n`, a function of the DATA only:
+  `DenseFunctionalData.smooth` / `.mean`   : `np.prod(self.n_points)`            (sampling points per dimension)
+  `IrregularFunctionalData.smooth` / `.mean`: `np.mean(self.n_points.values())`   (points per observation)
+  `…covariance` (`_smooth_covariance`)      : `np.prod(argvals_cov.n_points)`     (the sampling grid squared)
+None of them has the query set among its arguments. -/
+
+inductive LPEntry
+  | denseSmooth | irregularSmooth | covariance
+  deriving DecidableEq, Repr
+
+/-- The count `n` whose power `n^(-1/5)` is the default bandwidth.  `sizes`: numbers of sampling points per
+dimension (dense), per observation (irregular), of the common sampling grid (covariance). -/
+def bandwidthCount : LPEntry → List ℕ → ℚ
+  | .denseSmooth, sizes => (sizes.prod : ℚ)
+  | .irregularSmooth, sizes => (sizes.sum : ℚ) / (sizes.length : ℚ)
+  | .covariance, sizes => (sizes.prod : ℚ) * (sizes.prod : ℚ)
+
 /-! ### The uncentred ("raw") formulation, for the equivalence theorem -/
 
 /-- Raw 1-D design: column `k` is `x_i^k`. -/
